@@ -19,7 +19,9 @@ by proving that the real code
     * stores each S[ph, typ] exactly once, through the distinct keys returned by the grouping itself (keys that are mapped to other
       indices *after* the grouping can collide, and a colliding store keeps one group only);
     * groups by node(bus_e) (the bus lookup applied to the element's own bus);
-    * hands to the grouping, for every table with rows, exactly the rows that are in service and of connection type typ, once;
+    * hands to the grouping, for every table with rows, exactly the rows that are in service and of connection type typ, once
+      (typ = delta: type == 'delta'; typ = wye: every other value of the type column -- taken from the property: every in-service
+      element takes its power in every phase, so none may be left out of both injections);
     * with the element's own phase power as above.
 S starts as zero for every node (proved), so nodes without elements inject nothing.
 """
@@ -124,7 +126,9 @@ def run(vc):
                 p.prove(f"S{tag}: stored at most once", len(stores) <= 1, meta=dict(meta, part="loads-structure"))
                 if not stores:
                     # nothing stored: only right when no table has a row that could contribute
-                    none = z3.And(*[z3.Not(z3.And(tabs[et].space.n > 0, to_z(act[et].e), tabs[et].cols["type"].z == to_pv(typ))) for et in TABLES])
+                    none = z3.And(*[z3.Not(z3.And(tabs[et].space.n > 0, to_z(act[et].e),
+                                                  (tabs[et].cols["type"].z == to_pv("delta")) if typ == "delta" else (tabs[et].cols["type"].z != to_pv("delta"))))
+                                    for et in TABLES])
                     p.prove(f"S{tag}: nothing stored only if no element contributes", none, meta=meta)
                     continue
                 key, val = stores[0]
@@ -152,10 +156,14 @@ def run(vc):
                     m = dict(meta, et=et)
                     node = z3.substitute(to_z(bl.e, I), (lsp.i, to_z(c["bus"], I)))
                     p.prove(f"S{tag}[{et}]: grouped by the node of the element's own bus", to_z(k.e, I) == node, meta=m)
-                    want = z3.And(to_z(act[et].e), c["type"].z == to_pv(typ))
+                    # every in-service element is injected: through the delta transformation iff its type is 'delta', phase-earth
+                    # otherwise (the type column also carries other classifications, e.g. 'PV' / 'WP' for sgens, or is missing)
+                    is_delta = c["type"].z == to_pv("delta")
+                    want = z3.And(to_z(act[et].e), is_delta if typ == "delta" else z3.Not(is_delta))
                     km = z3.BoolVal(True) if k.mask is True else k.mask
                     vm = z3.BoolVal(True) if v.mask is True else v.mask
-                    p.prove(f"S{tag}[{et}]: exactly the in-service elements of connection type {typ}", z3.And(km == want, vm == want), meta=m)
+                    p.prove(f"S{tag}[{et}]: exactly the in-service elements of connection type {typ}", z3.And(km == want, vm == want), meta=m,
+                            note="wye = every type that is not 'delta': no in-service element may be left out of both injections")
                     ve = v.e if isinstance(v.e, CV) else CV(v.e, 0)
                     if et.startswith("asymmetric"):
                         pw, qw = to_z(c[f"p_{ph}_mw"], R), to_z(c[f"q_{ph}_mvar"], R)
